@@ -540,7 +540,9 @@ func ruleArrayReadsAnnouncedCount(w *core.World, r *core.Report) {
 			}
 			return !clamped
 		})
-		r.Check(!clamped && core.DependsOn(bound, isCount), "Decoder.decodeArray/reads-announced-count", s.Pos(), "the number of elements read is not the announced count itself (clamped by a constant: %v): a command with more elements comes out cut short, its offset is too small and the rest of it is decoded as the next command", clamped)
+		// the count may come from a helper that reads the header (the announced count beside "absent" and the error):
+		// then on every path that gets as far as reading an element the bound is that helper's decodeInt result
+		r.Check(!clamped && core.DependsOn(bound, isCount) || holdsOnPathsThrough(f, s.Instr, bound, isCount), "Decoder.decodeArray/reads-announced-count", s.Pos(), "the number of elements read is not the announced count itself (clamped by a constant: %v): a command with more elements comes out cut short, its offset is too small and the rest of it is decoded as the next command", clamped)
 	}
 	if n == 0 {
 		r.Fail("Decoder.decodeArray/reads-announced-count", f.Pos(), "the element loop was not found")
@@ -807,8 +809,9 @@ func ruleCommandNameLowercased(w *core.World, r *core.Report) {
 		return
 	}
 	var cmdVal ssa.Value
-	for _, in := range core.Instrs(f) {
-		if ret, ok := in.(*ssa.Return); ok && isSuccessReturn(in) {
+	// (a return that hands on the results of a helper with one call site is that helper's returns)
+	for _, ret := range core.ReturnsX(f) {
+		if isSuccessReturn(ret) && len(ret.Results) == 3 {
 			cmdVal = core.RetVal(ret, 0)
 		}
 	}
